@@ -121,6 +121,26 @@ Theorem field_options_do_not_affect_values :
 Proof. split; [exact annotated_fields_ordinary|exact annotated_root_field_value]. Qed.
 Print Assumptions field_options_do_not_affect_values.
 
+(* zero iterations: a loop (any quantifier) over an array or map without items is
+   defined and false, so `not (for ..)` and `defined (for ..)` hold; an array
+   field that the output leaves out or sets to no items is such a collection *)
+Theorem loop_over_empty_collection : forall tbl F qt p sub l,
+  (F p = RObjArr 0 -> eval3 tbl F (QFor qt p sub l) = Some false /\
+                      eval tbl F (QNot (QFor qt p sub l)) = true /\
+                      eval tbl F (QIsDefined (QFor qt p sub l)) = true) /\
+  (F p = RObjMap 0 -> eval3 tbl F (QMapFor qt p [] sub l) = Some false /\
+                      eval tbl F (QNot (QMapFor qt p [] sub l)) = true /\
+                      eval tbl F (QIsDefined (QMapFor qt p [] sub l)) = true).
+Proof. exact loop_over_empty_lemma. Qed.
+Print Assumptions loop_over_empty_collection.
+
+Theorem loop_over_unset_array_field : forall fs extra m enums n f e tbl qt sub l,
+  find_field n fs = Some f -> fd_ty f = TArr e ->
+  match assoc_n (fd_number f) m with Some (VArr (_ :: _)) => False | _ => True end ->
+  eval3 tbl (lookup (TMsg Proto2 fs extra) (Some (VMsg m)) enums) (QFor qt [SField n] sub l) = Some false.
+Proof. exact empty_array_loop_generated. Qed.
+Print Assumptions loop_over_unset_array_field.
+
 (* the real thing is not vacuous: test_proto2 and pe are among the schemas *)
 Example generated_schemas_present :
   generated_schema "test_proto2" <> None /\ generated_schema "pe" <> None /\
